@@ -21,7 +21,9 @@ class World(object):
         self.calls = []     # (model id, which, original_is_same)
         self.unknown = 0
 
-    def request(self, klass, app, ok, err, pick, retry=False):
+    def request(self, klass, app, ok, err, pick, retry=False, inline=None):
+        """inline: None | "result" | "error" - the reply is handed up while the request is still being written (a loopback or very fast
+        transport, or the writer preempted right after the write): the outcome must be that of request-then-reply."""
         names = CLASS[klass]
         kind = self.cat.BY_NAME[names[pick % len(names)]] if app else self.cat.BY_NAME["out.iq.ping"]
         ent = kind.make_entity(self.rng)
@@ -40,16 +42,37 @@ class World(object):
                     state["retry"] = False
                     self.app._sendIq(original, mk("ok") if ok else None, mk("err"))
             return cb
-        if app:
-            self.app._sendIq(ent, mk("ok") if ok else None, mk("err") if err else None)
-        else:
-            stackkit.member(self.group, "YowIqProtocolLayer").sendIq(ent)
+        orig_send = self.bottom.send
+        if inline:
+            def send_and_reply(data, orig_send=orig_send):
+                orig_send(data)
+                if data.tag == "iq" and data["id"] == ent.getId():
+                    self.bottom.send = orig_send
+                    self.bottom.toUpper(self.reply_node(kind, ent, inline))
+            self.bottom.send = send_and_reply
+        try:
+            if app:
+                self.app._sendIq(ent, mk("ok") if ok else None, mk("err") if err else None)
+            else:
+                stackkit.member(self.group, "YowIqProtocolLayer").sendIq(ent)
+        finally:
+            self.bottom.send = orig_send
         return kind, ent, self.bottom.down[before:]
+
+    def reply_node(self, kind, ent, typ):
+        if typ != "result":
+            return kind.iq_reply["error"](self.rng, ent)
+        # every result shape the catalogue knows for this request (e.g. the <duplicate> form of an upload result)
+        builders = [lambda: kind.iq_reply["result"](self.rng, ent)]
+        for k in self.cat.KINDS:
+            if k.direction == "in" and k.solicited_by == kind.name and k.name.startswith("in.iq.result"):
+                builders.append(lambda k=k: k.make_node(self.rng, request=ent))
+        return self.rng.choice(builders)()
 
     def deliver(self, mid, typ):
         kind, ent = self.reqs[mid - 1]
-        node = kind.iq_reply["result" if typ == "result" else "error"](self.rng, ent)
-        self.st.receive(node) if False else self.bottom.toUpper(node)
+        node = self.reply_node(kind, ent, typ)
+        self.bottom.toUpper(node)
         return node
 
     def deliver_unknown(self, typ, shape):
@@ -98,12 +121,25 @@ def replay_path(run, g, path, cat, seed, pi):
     w = World(rng, cat)
     init, steps = g.path_steps(path)
     trail = []
+    skip = False
     for si, (act, to) in enumerate(steps):
         n = act["name"]
+        if skip:
+            skip = False
+            continue
         try:
             if n == "Request":
-                kind, ent, sent = w.request(act["kind"], act["app"], act["ok"], act["err"], pi + si, act.get("retry", False))
+                # every third request that is answered next: the reply arrives while the request is still being written
+                inline = None
+                nreq = len(w.reqs) + 1
+                if si + 1 < len(steps) and steps[si + 1][0]["name"] == "Deliver" and steps[si + 1][0]["id"] == nreq and (pi + si) % 3 == 0 and not act.get("retry", False):
+                    inline = steps[si + 1][0]["type"]
+                kind, ent, sent = w.request(act["kind"], act["app"], act["ok"], act["err"], pi + si, act.get("retry", False), inline=inline)
                 trail.append({"Request": kind.name, "app": act["app"], "ok": act["ok"], "err": act["err"], "retry": act.get("retry", False)})
+                if inline:
+                    trail.append({"Deliver": nreq, "type": inline, "kind": kind.name, "inline": True})
+                    to = steps[si + 1][1]
+                    skip = True
                 if w.id_collision:
                     run.violation("request:id-not-unique", "request %s got id %r which an earlier request of this history already uses (%s)" % (
                         kind.name, ent.getId(), [(k.name, e.getId()) for k, e in w.reqs]), {"trail": trail})
